@@ -332,7 +332,7 @@ func bridgeUnwrapID(i int) (types.Hash, uint32) {
 	h[1] = 0x18
 	h[30] = byte(i >> 8)
 	h[31] = byte(i)
-	return h, uint32(i % 7)
+	return h, uint32(i%7) + 65536*uint32(i%3) // log indices on both sides of 2^16
 }
 
 const nBridgeRequests = 1030 // more than RpcMaxPageSize
